@@ -10,6 +10,9 @@ claimed = {
  "C02": ("W-proxy", "unique token per request echoed by scripted upstreams; history oracle: every delivered reply carries its own request's token in header and body, at most once; under late/duplicate/unknown-id replies, resets, retries, timeouts", "bolt (multiplexed) in this snapshot", "4 C02"),
  "C03": ("W-proxy", "per-request terminal-outcome count and fake-time liveness bound over seeded races of response, per-try/global timer, reset, connect failure, retry, client disconnect", "bolt in this snapshot; bound = 2*(attempts*(connect_timeout+1s)+global_timeout)+5s of simulated time", "4 C03"),
  "C10": ("W-proxy", "breaker resources and active gauges read at the idle quiescent point of every run (70 s of simulated time after the last request resolved) and compared with 0 / the live connections the simulated network knows", "bolt multiplex pool in this snapshot", "4 C10"),
+ "C05": ("W-lb", "histories of lookups x host-set replacements x health flips on a real simpleCluster and every balancer policy, interleaved at operation boundaries and at yield points inside Snapshot/UpdateHosts/Host.Health by the seeded scheduler; interval oracle: returned host belongs to a snapshot current during the lookup, was not unhealthy throughout, nil only if no host was healthy throughout", "maglev and subset balancing are exercised through W-proxy, not here; one flipper task per address so that the flag-word race of C16 cannot blur the health model", "4 C05"),
+ "C06": ("W-lb", "WRR clause: for seeded weight vectors (1..128), health patterns and preceding host-set replacements, the bounded-lag inequality is checked over every window of a 50..450 pick history of the real WRR balancer", "the zero-weight-cluster clause (route weighted clusters) is not built yet in this snapshot; the 'probability exactly weight/total' clause is not decided (DESIGN.md section 4 C06)", "4 C06"),
+ "C16": ("W-health", "(a) 2-4 goroutines each owning one condition bit of one address, set/clear interleaved at the yield point between load and store of the flag word; per-operation and final invariants; (b) the real healthChecker/sessionChecker on the fake clock with a scripted session (ok, fail, slow, timeout, late answer) against a reference threshold automaton over the check outcomes", "callbacks are compared in order with the scripted outcome of the check of the same index", "4 C16"),
 }
 
 na = {
@@ -18,7 +21,7 @@ na = {
  "C15": "subset selection and both builders are pure functions of (host metadata, selectors, fallback policy, criteria); no schedule, time, fault or history in the statement",
  "C19": "load/dump round trip is a pure function of the configuration; no time, I/O fault, concurrency or history in the statement",
 }
-pending = ["C05","C06","C07","C08","C09","C11","C12","C14","C16","C17","C18","C20"]
+pending = ["C07","C08","C09","C11","C12","C14","C17","C18","C20"]
 
 def main():
     checks=[]
@@ -52,6 +55,8 @@ def main():
       },
       "engines":[
         {"name":"W-proxy","path":"/verif/worlds/proxy.go","serves_properties":[p for p,v in claimed.items() if v[0]=="W-proxy"],"kind_free_text":"real MOSN (Init/Start from generated JSON) in one synctest bubble per worker process, simulated listener/dialer/connections, scripted protocol peers, seeded scheduler"},
+        {"name":"W-lb","path":"/verif/worlds/lb.go","serves_properties":[p for p,v in claimed.items() if v[0]=="W-lb"],"kind_free_text":"real simpleCluster + host sets + load balancers; lookup/update/flip tasks as goroutines parked and released one at a time by the seeded scheduler; many bubbles per worker process"},
+        {"name":"W-health","path":"/verif/worlds/health.go","serves_properties":[p for p,v in claimed.items() if v[0]=="W-health"],"kind_free_text":"real health flag store and real healthChecker/sessionChecker with a scripted session on the synctest fake clock"},
       ],
       "checks":checks,
       "not_applicable":nas,
